@@ -25,7 +25,7 @@ cc == EVar(Cv)
 I(n) == EInt(n)
 Idx0(e) == EIndex(e, I(0))
 
-ListOps == 1 .. 31
+ListOps == 1 .. 34
 ListOp(o) ==
     CASE o = 1  -> SAssign(b, a)                                   \* alias
       [] o = 2  -> SAssign(cc, a)
@@ -60,6 +60,10 @@ ListOp(o) ==
       \* a pattern whose first target writes into the list being destructured: the second item is read afterwards
       [] o = 30 -> SAssign(EPatRest(<<EIndex(cc, I(1)), b, EVar(N_us)>>), cc)
       [] o = 31 -> SAssign(EPat(<<Idx0(a), cc>>), EList(<<b, a>>))
+      \* a list stored into itself / into a list that is stored into it: aliases, never copies
+      [] o = 32 -> SAssign(Idx0(a), a)
+      [] o = 33 -> SAssign(cc, EList(<<a>>))
+      [] o = 34 -> SAssign(Idx0(a), cc)
 
 ObjOps == 1 .. 18
 Kp(e) == EProp(e, KK)
